@@ -151,6 +151,8 @@ fn replay(inp: &str, outp: &str, full: bool) -> i32 {
                     }
                     let mut o = o2.lock().unwrap();
                     writeln!(o, "{}", res).unwrap();
+                    // an abort of the code under test must not lose what was already judged
+                    o.flush().unwrap();
                 }
             }
             let mut o = o2.lock().unwrap();
